@@ -25,6 +25,11 @@ type Cmp struct {
 	// the observation applied includeDeprecated to args / inputFields (the Go API has no such parameter)
 	ArgFilter, InpFilter bool
 	Out                  []Mismatch
+	// AltText: expected text -> the text the same element has when the schema SOURCE is read with every
+	// carriage return removed (what a Go raw string literal does to an inlined source); an observation equal
+	// to it gets AltKey instead of the generic key. nil unless the served schema came through the generator.
+	AltText map[string]string
+	AltKey  string
 	// deviations from the letter of section 4 that do not affect what the view says about the schema
 	Tolerated map[string]int
 }
@@ -56,6 +61,10 @@ func (c *Cmp) text(key, where string, exp NStr, conc func(string) string, obs OS
 	}
 	want := conc(exp.V)
 	if obs.Null || obs.V != want {
+		if alt, ok := c.AltText[want]; ok && !obs.Null && obs.V == alt && strings.HasSuffix(key, ".description") {
+			c.add(c.AltKey, where, "%s: expected %q, observed %s: the text of the schema source with its carriage returns removed", key, want, showO(obs))
+			return
+		}
 		c.add(key, where, "expected %q, observed %s", want, showO(obs))
 	}
 }
@@ -134,7 +143,11 @@ func (c *Cmp) dep(kind, where string, expIs string, expWhy NStr, obsIs string, o
 		c.add(kind+".isDeprecated", where, "expected %s, observed %s", expIs, obsIs)
 		return
 	}
-	c.add(kind+".deprecationReason", where, "expected %v, observed %s", expWhy, showO(obsWhy))
+	want := "null"
+	if expWhy.Nul != "t" {
+		want = strconv.Quote(c.C.Reason(expWhy.V))
+	}
+	c.add(kind+".deprecationReason", where, "expected %s, observed %s", want, showO(obsWhy))
 }
 
 // ---- default values ----
